@@ -133,9 +133,11 @@ PROPS = {
             'ReadIter::next (document iterator of read / read_with_options): no result of the event source that carries the deferred reader error is ever discarded before the iterator ends quietly or delivers a document (ghost-tracked); a finished iterator stays finished; it ends only by marking itself finished',
             'an error stored while pumping is never consumed by next/peek themselves: it stays in the cell for finish (or the next call) to report',
             'ChunkedChars::next: it signals end of input only when nothing is left, or after storing an error in the shared cell (reader error of ANY kind, EOF inside a code point, invalid lead byte / sequence, byte cap exceeded); total_bytes never exceeds the cap; at most 4 bytes are requested per character',
+            'writer side (to_io_writer_with_options): the fmt::Write adapter over io::Write remembers a failed write_all, appends exactly the text on success and leaves a prefix of it on failure; the result selection returns the remembered I/O error whenever the serializer failed after a write failure',
         ],
-        not_covered=['BufReader / decoder read-ahead; the feature-gated copies of the iterator (read_*_valid / read_*_validate; same text, repaired alike, not extracted); termination of ReadIter::next; writer side'],
-        assumptions=['interior mutability of the shared error cell is made explicit (rule R28: io_error takes &mut self and consumes the cell); the reader may fill the cell during any pump step'],
+        not_covered=['BufReader / decoder read-ahead; the feature-gated copies of the iterator (read_*_valid / read_*_validate; same text, repaired alike, not extracted); termination of ReadIter::next; writer side: that the serializer stops at the first failed write (every write in src/ser.rs is followed by `?`; checked by grep, not by a contract) and Adapter::write_char'],
+        assumptions=['interior mutability of the shared error cell is made explicit (rule R28: io_error takes &mut self and consumes the cell); the reader may fill the cell during any pump step',
+                     'io::Write::write_all (assumed, std documentation): Ok means all bytes were written, Err leaves an unspecified prefix written'],
     ),
     'C11': dict(
         covered=[
